@@ -196,11 +196,20 @@ impl WalWriter {
         self.perform_fsync()
     }
 
+    /// Refuse every further append on this writer (restart required).
+    ///
+    /// Used when the on-disk state this writer belongs to can no longer be trusted to match
+    /// what the engine believes, e.g. a WAL rotation whose MANIFEST update failed half-way
+    /// and could not be undone.
+    pub fn poison(&mut self) {
+        self.poisoned = true;
+    }
+
     fn ensure_not_poisoned(&self) -> Result<()> {
         if self.poisoned {
             bail!(
-                "WAL segment {} is unusable: an earlier failed append could not be rolled back; \
-                 restart required before writes can resume",
+                "WAL segment {} is unusable: an earlier failed append or rotation could not be \
+                 rolled back; restart required before writes can resume",
                 self.path.display()
             );
         }
